@@ -95,7 +95,7 @@ func execBool(r *rand.Rand, e *BoolEv) {
 	s0, c0 := clonePaths(e.Subj), clonePaths(e.Clip)
 	sol, ok, out := callBool(e)
 	e.Sol, e.Ok, e.Out = nz(sol), ok, out
-	e.ArgsSame = equalPaths(s0, e.Subj) && equalPaths(c0, e.Clip)
+	e.ArgsSame = equalPaths(s0, e.Subj) && equalPaths(c0, e.Clip) && argsUnchanged()
 	sol2, _, _ := callBool(e)
 	e.Sol2Same = equalPaths(sol, sol2)
 	if has(e.Chk, "UNI") {
